@@ -615,5 +615,7 @@ func main() {
 	genRetry(*repo, *out)
 	genWiring(*repo, *out)
 	genConds(*repo, *out)
+	genKinesisAdd(*repo, *out)
+	genOtherAdds(*repo, *out)
 	fmt.Println("factgen: ok")
 }
